@@ -103,6 +103,8 @@ class FuncExec(ExprMixin, CallMixin):
         self.synth = {}
         self.synth_keep = []
         self.array_facts = {}     # array const name -> [facts]
+        self.loop_frames = {}
+        self.probe_callees = set()
 
     # ------------------------------------------------------------------
     def loop_ordinal(self, node):
@@ -271,7 +273,7 @@ class FuncExec(ExprMixin, CallMixin):
                         continue
                     # fresh objects may be written freely: only pre-existing objects are framed
                     x = z3.Const(fresh_name("x!fr"), V)
-                    g = z3.ForAll([x], z3.Implies(self.entry_heap.sel("$alloc", x),
+                    g = smt.forall([x], z3.Implies(self.entry_heap.sel("$alloc", x),
                                                   z3.Select(st.heap.get(f), x) == z3.Select(self.entry_heap.get(f), x)))
                     self.oblige(st, "frame", f, g, ln)
         if c.pure_when:
@@ -418,7 +420,9 @@ class FuncExec(ExprMixin, CallMixin):
         """-> list of (state, exc or None)"""
         if isinstance(t, ast.Name):
             st.locals[t.id] = v
-            if vtype:
+            if t.id in self.contract.types:
+                st.ltypes[t.id] = self.contract.types[t.id]
+            elif vtype:
                 st.ltypes[t.id] = vtype
             else:
                 st.ltypes.pop(t.id, None)
@@ -714,6 +718,7 @@ class FuncExec(ExprMixin, CallMixin):
         mods = self.contract.loop_modifies.get(k)
         if mods is None:
             probe = st.copy()
+            self.probe_callees = set()
             self.dry += 1
             try:
                 outs = self.exec_loop_body_probe(node, probe)
@@ -722,7 +727,9 @@ class FuncExec(ExprMixin, CallMixin):
             mods = set()
             whole = False
             ghosts = set()
+            acls = set()
             for s2, _o in outs:
+                acls |= set(s2.ghost.get("$alloc_cls", ())) - set(st.ghost.get("$alloc_cls", ()))
                 ch = s2.heap.changed_fields(st.heap)
                 if ch is None:
                     whole = True
@@ -739,16 +746,43 @@ class FuncExec(ExprMixin, CallMixin):
                 mods = "*"
         else:
             ghosts = set()
+            acls = None
         pre_heap = st.heap.copy()
         if mods == "*":
             st.heap = st.heap.havoc_all()
             for f in self.eng.wf(st.heap):
                 st.assume(f)
         else:
-            st.heap.havoc_fields(sorted(mods))
+            # fields the contract does not list as modified can only be written at objects allocated
+            # inside this function: keep the loop-entry values of every pre-existing object (checked
+            # again at the end of each iteration: obligation inv-step:loopK.frame:<field>)
+            framed = []
+            if self.contract.modifies != "*":
+                framed = [f for f in sorted(mods) if f not in self.contract.modifies and f != "$alloc"]
+            plain = [f for f in sorted(mods) if f not in framed]
+            st.heap.havoc_fields(plain)
+            al = pre_heap.get("$alloc")
+            for f in framed:
+                fr = z3.Const(fresh_name(f + "@lf"), field_sort(f))
+                x = z3.Const(fresh_name("x!lf"), V)
+                st.heap.set(f, fr)
+                st.assume(smt.forall([x], z3.Implies(z3.Select(al, x), z3.Select(fr, x) == z3.Select(pre_heap.get(f), x)),
+                                    patterns=[z3.Select(fr, x)]))
+            self.loop_frames[k] = (framed, pre_heap, None)
             if "$alloc" in mods:
                 x = z3.Const(fresh_name("x!al"), V)
-                st.assume(z3.ForAll([x], z3.Implies(pre_heap.sel("$alloc", x), st.heap.sel("$alloc", x))))
+                st.assume(smt.forall([x], z3.Implies(pre_heap.sel("$alloc", x), st.heap.sel("$alloc", x))))
+                only_direct = all(("$alloc" not in (self.reg.contracts[c].modifies if c in self.reg.contracts else []))
+                                  for c in self.probe_callees)
+                if acls is not None and only_direct and acls:
+                    # everything allocated by earlier iterations is an instance of one of the classes the
+                    # body allocates (checked at the end of each iteration)
+                    cls = sorted(acls)
+                    self.loop_frames[k] = (framed, pre_heap, cls)
+                    y = z3.Const(fresh_name("y!al"), V)
+                    st.assume(smt.forall([y], z3.Implies(z3.And(st.heap.sel("$alloc", y), z3.Not(pre_heap.sel("$alloc", y))),
+                                                        z3.Or(*[smt.typeof_u(y) == self.eng.ct.cls(c) for c in cls])),
+                                        patterns=[st.heap.sel("$alloc", y)]))
             for f in self.eng.wf(st.heap):
                 st.assume(f)
         for n in sorted(names):
@@ -792,6 +826,17 @@ class FuncExec(ExprMixin, CallMixin):
         env = self.spec_env(st, pre=pre)
         for i, p in enumerate(inv):
             self.oblige(st, kind, "loop%d.%d" % (k, i + 1), env.formula(p), ln)
+        if kind == "inv-step" and k in self.loop_frames:
+            framed, ph, cls = self.loop_frames[k]
+            if cls:
+                y = z3.Const(fresh_name("y!alc"), V)
+                g = smt.forall([y], z3.Implies(z3.And(st.heap.sel("$alloc", y), z3.Not(ph.sel("$alloc", y))),
+                                              z3.Or(*[smt.typeof_u(y) == self.eng.ct.cls(c) for c in cls])))
+                self.oblige(st, kind, "loop%d.alloc-classes" % k, g, ln)
+            for f in framed:
+                x = z3.Const(fresh_name("x!lfc"), V)
+                g = smt.forall([x], z3.Implies(ph.sel("$alloc", x), z3.Select(st.heap.get(f), x) == z3.Select(ph.get(f), x)))
+                self.oblige(st, kind, "loop%d.frame:%s" % (k, f), g, ln)
 
     def assume_inv(self, st, inv, pre):
         env = self.spec_env(st, pre=pre)
@@ -952,11 +997,11 @@ class FuncExec(ExprMixin, CallMixin):
         seen = st.ghost[g]
         mem = st.heap.sel("$smem", S)
         y = z3.Const(fresh_name("y!seen"), V)
-        st.assume(z3.ForAll([y], z3.Implies(z3.Select(seen, y), z3.Select(mem, y))))
+        st.assume(smt.forall([y], z3.Implies(z3.Select(seen, y), z3.Select(mem, y))))
         self.assume_inv(st, inv, pre0)
         ex = st.copy()
         y2 = z3.Const(fresh_name("y!ex"), V)
-        ex.assume(z3.ForAll([y2], z3.Implies(z3.Select(mem, y2), z3.Select(seen, y2))), "L%d: set exhausted" % s.lineno)
+        ex.assume(smt.forall([y2], z3.Implies(z3.Select(mem, y2), z3.Select(seen, y2))), "L%d: set exhausted" % s.lineno)
         out.append((ex, NORMAL))
         b = st
         x = fresh_v("elem%d" % k)
